@@ -6,7 +6,13 @@ distinct real RSA keys.  RSACrypto.get_signer, RSASigner.sign and RSASigner.veri
 here, no repo edit) with entry/exit gates; a deterministic scheduler lets exactly one worker run at a
 time, from gate to gate, in the order given by the case's schedule.  Every produced signature is
 identified against reference signatures made directly with the `cryptography` package (RSA
-PKCS#1 v1.5 is deterministic) and verified under every entity's certificate."""
+PKCS#1 v1.5 is deterministic) and verified under every entity's certificate.
+
+Pool cases add two dimensions: (1) OS threads are not entities - a pool thread serves jobs of several
+entities one after the other and the main thread signs too; (2) entities have a life cycle - they are
+built by the real constructors from key/certificate FILES that are replaced (same / other mtime, in
+place / rename / symlink) while older entities live on; signatures are verified under the certificate
+each entity publishes itself."""
 import base64
 import hashlib
 import itertools
@@ -36,15 +42,34 @@ RULE = ("schedules = lists of thread ids, one entry = run that real thread to it
         "entries).  In addition line- and bytecode-granular scheduling points (sys.settrace; results only): complete "
         "single-pre-emption schedules for 5 two-thread configurations, seeded two-pre-emption and bursty schedules.  "
         "non-trivial = distinct (configuration, schedule) where another thread's get_signer on the same algorithm runs "
-        "between a get_signer and the sign/verify that uses its result (gate modes), or with >= 1 pre-emption (fine modes)")
+        "between a get_signer and the sign/verify that uses its result (gate modes), or with >= 1 pre-emption (fine modes).  "
+        "OS THREADS (pool cases): jobs (calls of one entity) are assigned to OS threads - pool threads that serve jobs of "
+        "DIFFERENT entities one after the other, and the main thread (played by a fresh thread per case) that builds the "
+        "entities and may sign in between; the schedule names OS threads.  Complete: all interleavings (entry gates) of a "
+        "thread serving A then B beside a thread serving C for 5 configurations (same / different SigAlg, via pack, "
+        "sign-then-verify-own, verify-own-then-sign), main-thread signing for A and B; every sequence of 2 and of 3 jobs "
+        "over {A,B} x {sign sha256, sign sha512, verify-with-own-key} on one OS thread (length 2 also on the main thread); "
+        "seeded: A,B,A / crossed assignments, all-gates interleavings, random pools (2-6 jobs, 1-3 pool threads + main).  "
+        "ENTITY LIFE CYCLE (deployment cases, real files in a scratch directory, real constructors): key pair + "
+        "certificate replaced at a path the configuration keeps naming, complete over {same, later, earlier mtime} x "
+        "{overwritten in place, renamed over, symlink switched} x {Saml2Client, Server, bare RSACrypto} (old entity has / "
+        "has not signed before the roll-over; same / different entityid), roll-back (k0,k1,k0 with one time stamp), two "
+        "paths exchanging their pairs, seeded random scripts; the entities built before and after then sign "
+        "concurrently and every signature is verified under the certificate each entity itself publishes "
+        "(sec.my_cert).  non-trivial (pool) = an OS thread serves two entities, or a path is re-installed")
 TRUSTED = ["deterministic scheduler + gate wrappers / trace hooks in harness/c20.py (one worker runs at a time; switches "
            "only at gates, or at line / bytecode events in the fine modes)",
            "reference signatures / certificate verification done with the `cryptography` package directly",
-           "identification of a signature value with (key, digest, octets) by byte equality with the reference"]
+           "identification of a signature value with (key, digest, octets) by byte equality with the reference",
+           "deployment steps carried out by harness/c20.py (files written / renamed / symlinked, os.utime); a published "
+           "certificate is identified with a fixture key pair by equality of its base64 body"]
 ASSUMPTIONS = ["ideal signatures (hypothesis of c20_own_key; real RSA PKCS#1 v1.5 is executed in the correspondence)",
                "the model's atomic step is gate-to-gate: pre-emption inside get_signer/sign/verify or between two gates is "
                "not in the model; the correspondence exhibits it only by the line/bytecode samples (notes/C20.md)",
-               "XML signatures (xmlsec1 path, key file per call) are outside this mechanism"]
+               "XML signatures (xmlsec1 path, key file per call) are outside this mechanism",
+               "the model has no per-OS-thread state and reads key/certificate files by content at construction only "
+               "(what the anchored code does); both are exhibited by the pool / deployment cases, the deployment script "
+               "itself runs before the pool threads start (no installation concurrent with signing)"]
 
 KEYNAMES = ["sp", "idp", "idp2", "other", "attacker"]
 KID0 = 10  # key pair i is called 10+i on the Coq side (not to be confused with entity / algorithm numbers)
@@ -133,12 +158,16 @@ class Sched:
         self.done = [False] * n
         self.trace = []
         self.idx = {}
+        self.cur = list(range(n))   # the job (logical thread) slot t is running; trace events name the job
+        self.inline = set()         # slots that are not scheduled (the main thread): gates are recorded, never block
 
     def gate(self, label):
         t = self.idx.get(threading.get_ident())
         if t is None or label not in self.gon:
             return
-        self.trace.append((t, label))
+        self.trace.append((self.cur[t], label))
+        if t in self.inline:
+            return
         self.arrived.release()
         self.go[t].acquire()
 
@@ -321,7 +350,7 @@ def sig_bytes(spec):
     return junk_sig(spec[1])
 
 
-def do_verify(ent, kind, m, a, sigspec, vk, ents):
+def do_verify(ent, kind, m, a, sigspec, vk, ents, certs=None):
     import saml2.sigver as sv
 
     typ, args = saml_args(m, a)
@@ -329,14 +358,18 @@ def do_verify(ent, kind, m, a, sigspec, vk, ents):
     saml_msg["Signature"] = base64.b64encode(sig_bytes(sigspec)).decode("ascii")
     cert, sigkey = None, None
     if vk[0] == "cert":
-        cert = fixtures.cert_b64(KEYNAMES[ents[vk[1]][1]])
+        cert = certs[vk[1]] if certs is not None else fixtures.cert_b64(KEYNAMES[ents[vk[1]][1]])
     elif vk[0] == "key":
         sigkey = privkey(vk[1])
     return sv.verify_redirect_signature(saml_msg, backend_of(ent, kind), cert, sigkey)
 
 
-def abstract_location(url, ents):
-    """(m, a, identified signature, verification vector) of a signed redirect URL."""
+def abstract_location(url, ents, pubs=None):
+    """(m, a, identified signature, verification vector) of a signed redirect URL; the vector is taken over the
+    certificates of the entities: `pubs` (public keys of the certificates the live entities publish) or, for the
+    entities built from the fixture files, the fixture certificate of their key pair."""
+    if pubs is None:
+        pubs = [pubkey(kidx) for (_kind, kidx) in ents]
     from cryptography.hazmat.primitives.asymmetric import padding
 
     q = {k: v[0] for k, v in parse_qs(urlparse(url).query, keep_blank_values=True).items()}
@@ -350,11 +383,11 @@ def abstract_location(url, ents):
     who = _sigmap.get(sig)
     vm = []
     a = ALG_URIS.index(q["SigAlg"]) if q["SigAlg"] in ALG_URIS else 6
-    for (_kind, kidx) in ents:
+    for pk in pubs:
         ok = False
         if a < 5:
             try:
-                pubkey(kidx).verify(sig, octs, padding.PKCS1v15(), _hash(a))
+                pk.verify(sig, octs, padding.PKCS1v15(), _hash(a))
                 ok = True
             except Exception:
                 ok = False
@@ -596,6 +629,469 @@ def fine_cases(ctx):
     return out
 
 
+# ------------------------------------------------------------------------------------ worker pools + deployments
+# A pool case: the MAIN thread carries out a deployment script (install key pair k at path p with a given mtime, in
+# place / by rename / by switching a symlink; build an entity from the configuration naming path p; run a job), then
+# OS worker threads serve the jobs (logical threads) assigned to them, one after the other, under the schedule.
+# workers[0] = the jobs of the main thread (run by the "call" steps), workers[1:] = the pool threads.
+STAMP0 = 1700000000
+HOWS = ["overwrite", "rename", "symlink"]
+
+
+def deploy_ents(deploy):
+    """(kind, key pair installed at the entity's path when it is built) per entity, in creation order"""
+    fs, ents = {}, []
+    for st in deploy:
+        if st[0] == "install":
+            fs[st[1]] = st[2]
+        elif st[0] == "create":
+            ents.append([st[2], fs[st[1]]])
+    return ents
+
+
+def pool_case(tag, deploy, gates, jobs, workers, sched, fixture):
+    c = mk(tag, deploy_ents(deploy), gates, jobs, sched)
+    c["pool"] = True
+    c["deploy"] = deploy
+    c["workers"] = workers
+    c["fixture"] = fixture      # True: path p IS the fixture file of key pair p (never rewritten; entities are reused)
+    return c
+
+
+def fixture_deploy(ents, main_jobs=()):
+    """the deployment that describes entities built from the fixture files (path k holds key pair k for ever)"""
+    d = [["install", k, k, 0, 0] for k in sorted({k for _kind, k in ents})]
+    d += [["create", k, kind, 0] for kind, k in ents]
+    d += [["call", j] for j in main_jobs]
+    return d
+
+
+def worker_segments(case, w):
+    return 1 + sum(len(op_gates(op, case["gates"])) for j in case["workers"][w] for op in case["threads"][j]["ops"])
+
+
+def main_prefix(case):
+    """schedule entries of worker 0: the main thread runs its jobs to the end before the pool threads start"""
+    return [0] * worker_segments(case, 0) if case["workers"][0] else []
+
+
+def _install(root, p, k, stamp, how, serial):
+    import shutil
+
+    for ext, src in ((".key", fixtures.key_path(KEYNAMES[k])), (".pem", fixtures.cert_path(KEYNAMES[k]))):
+        path = os.path.join(root, "p%d%s" % (p, ext))
+        if how == 0:
+            if os.path.islink(path):
+                os.unlink(path)
+            with open(src, "rb") as f, open(path, "wb") as g:      # same inode when the file exists
+                g.write(f.read())
+        elif how == 1:
+            shutil.copyfile(src, path + ".new")
+            os.utime(path + ".new", (STAMP0 + stamp, STAMP0 + stamp))
+            os.replace(path + ".new", path)
+        else:
+            target = os.path.join(root, "store-%d-%d%s" % (serial, k, ext))
+            shutil.copyfile(src, target)
+            os.symlink(target, path + ".lnk")
+            os.replace(path + ".lnk", path)
+        os.utime(path, (STAMP0 + stamp, STAMP0 + stamp))            # follows the symlink
+
+
+def _cert_body(path):
+    with open(path) as f:
+        return "".join(l.strip() for l in f if "CERTIFICATE" not in l)
+
+
+def _create(root, p, kind, eidmode, n):
+    """the real constructors; returns (entity, certificate it publishes as base64 body)"""
+    import saml2.sigver as sv
+
+    key_file, cert_file = os.path.join(root, "p%d.key" % p), os.path.join(root, "p%d.pem" % p)
+    eid = "https://e.example.org/path%d" % p if eidmode == 0 else "https://e%d.example.org/%s" % (n, kind)
+    over = {"key_file": key_file, "cert_file": cert_file, "entityid": eid}
+    if kind == "sp":
+        e = world.make_sp(**over)
+        return e, e.sec.my_cert
+    if kind == "idp":
+        e = world.make_idp(**over)
+        return e, e.sec.my_cert
+    # a bare backend has no SecurityContext: what its operator publishes is the certificate file as it is now
+    return sv.RSACrypto(sv.import_rsa_key_from_file(key_file)), _cert_body(cert_file)
+
+
+_certid = {}
+
+
+def cert_id(body):
+    """key pair (Coq numbering) of a published certificate; 0 = none of the fixture certificates"""
+    if not _certid:
+        for i, kn in enumerate(KEYNAMES):
+            _certid[fixtures.cert_b64(kn)] = KID0 + i
+    return _certid.get("".join(str(body).split()), 0)
+
+
+def pub_of_body(body):
+    from cryptography import x509
+
+    pem = "-----BEGIN CERTIFICATE-----\n%s\n-----END CERTIFICATE-----\n" % body
+    return x509.load_pem_x509_certificate(pem.encode("ascii")).public_key()
+
+
+def observe_pool(case):
+    global _CUR
+    import shutil
+    import tempfile
+
+    install_gates()
+    jobs, workers = case["threads"], case["workers"]
+    msgs = set()
+    for th in jobs:
+        for op in th["ops"]:
+            msgs.add(op[2] if op[0] == "S" else op[1])
+            if op[0] == "V" and op[3][0] == "ref":
+                msgs.add(op[3][3])
+    ensure_refs(sorted(msgs))
+    n = len(workers)
+    results = [[] for _ in jobs]
+    ents, kinds, certs, fixture_keys = [], [], [], []
+    s = Sched(n, case["gates"])
+    s.inline.add(0)
+    s.done[0] = True
+
+    def run_job(w, j):
+        th = jobs[j]
+        s.cur[w] = j
+        for op in th["ops"]:
+            try:
+                ent, kind = ents[th["ent"]], kinds[th["ent"]]
+                if op[0] == "S":
+                    r = ("url", do_sign(ent, kind, th["via"], op[1], op[2]))
+                else:
+                    v = do_verify(ent, kind, op[1], op[2], op[3], op[4], None, certs)
+                    r = ("none",) if v is None else ("ver", bool(v))
+            except Exception:
+                r = ("raise",)
+            results[j].append(r)
+
+    def body(w):
+        def run():
+            for j in workers[w]:
+                run_job(w, j)
+        return run
+
+    root = None if case["fixture"] else tempfile.mkdtemp(prefix="c20-deploy-")
+    failure = []
+
+    def main_role():
+        # the process's main thread is played by a FRESH OS thread per case (ended before the pool threads start):
+        # whatever a changed library may keep per OS thread cannot travel from one case to the next, so that a
+        # failing case fails again when it is replayed alone
+        s.idx[threading.get_ident()] = 0
+        try:
+            deployment()
+        except BaseException as e:      # noqa: B902 - reported below, in the calling thread
+            failure.append(e)
+
+    def deployment():
+        for serial, st in enumerate(case["deploy"]):
+            if st[0] == "install":
+                if root:
+                    _install(root, st[1], st[2], st[3], st[4], serial)
+            elif st[0] == "create":
+                if root:
+                    e, body_ = _create(root, st[1], st[2], st[3], len(ents))
+                else:
+                    # entities built from the fixture files are reused between cases; two entities of one case
+                    # are always two objects (occurrence number)
+                    occ = sum(1 for k2, kid2 in zip(kinds, fixture_keys) if (k2, kid2) == (st[2], st[1]))
+                    e = entity(100 + occ, st[2], st[1])
+                    fixture_keys.append(st[1])
+                    body_ = fixtures.cert_b64(KEYNAMES[st[1]]) if st[2] == "raw" else e.sec.my_cert
+                ents.append(e)
+                kinds.append(st[2])
+                certs.append(body_)
+            else:
+                run_job(0, st[1])
+
+    _CUR = s
+    try:
+        # --- the main thread: deployment script
+        mt = threading.Thread(target=main_role, daemon=True)
+        mt.start()
+        mt.join(120)
+        if failure or mt.is_alive():
+            raise RuntimeError("deployment script failed: %r" % (failure or "timeout"))
+        # --- the pool threads
+        threads = [threading.Thread(target=s.worker, args=(w, body(w)), daemon=True) for w in range(1, n)]
+        for t in threads:
+            t.start()
+        for w in case["sched"]:
+            s.release(w)
+        complete = all(s.done)
+        counts = [len(r) for r in results]
+        trace = list(s.trace)
+        drained = 0
+        for w in range(1, n):
+            while s.release(w):
+                drained += 1
+        for t in threads:
+            t.join(30)
+    finally:
+        _CUR = None
+        if root:
+            shutil.rmtree(root, ignore_errors=True)
+    pubs = [pub_of_body(b) for b in certs]
+    outs = []
+    for j in range(len(jobs)):
+        row = []
+        for r in results[j][:counts[j]]:
+            if r[0] == "url":
+                row.append(abstract_location(r[1], None, pubs))
+            elif r[0] == "ver":
+                row.append({"k": "ver", "b": r[1]})
+            else:
+                row.append({"k": r[0]})
+        outs.append(row)
+    return {"outs": outs, "trace": [[j, g] for j, g in trace], "complete": complete, "drained": drained,
+            "certs": [cert_id(b) for b in certs]}
+
+
+def pool_sched(rng, case, stutter=True):
+    counts = [0] + [worker_segments(case, w) for w in range(1, len(case["workers"]))]
+    sched = random_interleaving(rng, counts)
+    if stutter and rng.random() < 0.3:
+        sched.insert(rng.randrange(len(sched) + 1), rng.randrange(len(counts) + 1))     # finished / main / unknown worker
+    return sched
+
+
+def pool_all(tag, ents, gates, jobs, workers, out, sample=None, rng=None, main_jobs=()):
+    """every interleaving of the pool threads (or a seeded sample) for entities built from the fixture files"""
+    proto = pool_case(tag, fixture_deploy(ents, main_jobs), gates, jobs, workers, [], True)
+    counts = [0] + [worker_segments(proto, w) for w in range(1, len(workers))]
+    if sample is None:
+        scheds = list(interleavings(counts))
+    else:
+        seen = set()
+        while len(seen) < sample:
+            seen.add(tuple(random_interleaving(rng, counts)))
+        scheds = [list(x) for x in sorted(seen)]
+    for sc in scheds:
+        c = dict(proto)
+        c["sched"] = sc
+        out.append(c)
+
+
+JOB_ALPHABET = [(e, kind) for e in (0, 1) for kind in ("s2", "s4", "vown")]
+
+
+def alphabet_job(sym, m):
+    e, kind = sym
+    if kind == "s2":
+        return T(e, [S(2, m)], "entity" if m % 2 == 0 else "pack")
+    if kind == "s4":
+        return T(e, [S(4, m)], "pack" if m % 2 == 0 else "entity")
+    # verification with neither certificate nor key: the verifier's own key; the signature offered is the OTHER
+    # entity's, so that a verifier running with a foreign signer would accept it
+    return T(e, [V(m, 2, REF(E3[1 - e][1], 2, m, 2), ["own"])])
+
+
+def pool_fixture_cases(ctx):
+    rng = ctx.rng
+    out = []
+    A, B, C = 0, 1, 2
+    jC = T(C, [S(2, 2)])
+    # --- one pool thread serves A and then B, a second one serves C: every interleaving (entry gates)
+    cfgs = [
+        ("pool-AB-same", [T(A, [S(2, 0)]), T(B, [S(2, 1)]), jC], [[], [0, 1], [2]]),
+        ("pool-AB-diff", [T(A, [S(2, 0)]), T(B, [S(4, 1)]), jC], [[], [0, 1], [2]]),
+        ("pool-AB-pack", [T(A, [S(2, 0)], "pack"), T(B, [S(2, 1)], "pack"), T(C, [S(2, 2)], "pack")], [[], [0, 1], [2]]),
+        ("pool-sign-verifyown", [T(A, [S(2, 0)]), T(B, [V(0, 2, REF(0, 2, 0, 2), ["own"])]), jC], [[], [0, 1], [2]]),
+        ("pool-verifyown-sign", [T(A, [V(1, 2, REF(1, 2, 1, 2), ["own"])]), T(B, [S(2, 1)]),
+                                 T(C, [V(1, 2, REF(1, 2, 1, 2), ["cert", B])])], [[], [0, 1], [2]]),
+        ("pool-ABA", [T(A, [S(2, 0)]), T(B, [S(2, 1)]), T(A, [S(2, 2)]), T(B, [S(2, 3)])], [[], [0, 1, 2], [3]]),
+        ("pool-cross", [T(A, [S(2, 0)]), T(B, [S(2, 1)]), T(B, [S(2, 3)]), T(A, [S(2, 2)])], [[], [0, 1], [2, 3]]),
+    ]
+    for tag, jobs, workers in cfgs:
+        if tag in ("pool-cross", "pool-ABA") and not ctx.thorough:
+            pool_all(tag, E3, ENTRY, jobs, workers, out, sample=60, rng=rng)
+        else:
+            pool_all(tag, E3, ENTRY, jobs, workers, out)
+    pool_all("pool-AB-allgates", E3, ALL, cfgs[0][1], cfgs[0][2], out, sample=(2002 if ctx.thorough else 60), rng=rng)
+    # --- the main thread (which built the entities) signs for A and B before the pool threads start
+    pool_all("pool-main-AB", E3, ENTRY, [T(A, [S(2, 0)]), T(B, [S(2, 1)]), jC, T(A, [S(2, 4)])], [[0, 1], [2], [3]], out,
+             main_jobs=[0, 1])
+    # --- every sequence of 2 and of 3 jobs over {A, B} x {sign sha256, sign sha512, verify-own} on ONE OS thread
+    #     (a pool thread, and for length 2 also the main thread), C signing concurrently on a second thread
+    for length in (2, 3):
+        for seq in itertools.product(JOB_ALPHABET, repeat=length):
+            jobs = [alphabet_job(sym, i) for i, sym in enumerate(seq)] + [T(C, [S(2, 7)])]
+            gates = ENTRY if rng.random() < 0.5 else ([g for g in GATES if rng.random() < 0.6] or ["se"])
+            c = pool_case("pool-seq%d" % length, fixture_deploy(E3), gates, jobs, [[], list(range(length)), [length]], [], True)
+            c["sched"] = pool_sched(rng, c)
+            out.append(c)
+            if length == 2:
+                c = pool_case("pool-seq2-main", fixture_deploy(E3, [0, 1]), gates, jobs, [[0, 1], [2]], [], True)
+                c["sched"] = pool_sched(rng, c)
+                out.append(c)
+    # --- random pools
+    for _ in range(4000 if ctx.thorough else 150):
+        out.append(random_pool_case(rng))
+    return out
+
+
+def random_jobs(rng, n_ent, ents, n_jobs, algs):
+    jobs = []
+    for _ in range(n_jobs):
+        e = rng.randrange(n_ent)
+        ops = []
+        for _ in range(rng.choice([1, 1, 1, 2])):
+            a = rng.choice(algs) if rng.random() < 0.9 else rng.choice([5, 6])
+            m = rng.randrange(MAXMSG)
+            if rng.random() < 0.7:
+                ops.append(S(a, m))
+            else:
+                r = rng.random()
+                vk = ["cert", rng.randrange(n_ent)] if r < 0.4 else (["own"] if r < 0.85 else ["key", rng.randrange(5)])
+                asked = ents[vk[1]][1] if vk[0] == "cert" else (ents[e][1] if vk[0] == "own" else vk[1])
+                if rng.random() < 0.8:
+                    sk = asked if rng.random() < 0.5 else rng.choice([k for _kind, k in ents])
+                    sig = REF(sk, a if a < 5 and rng.random() < 0.85 else rng.randrange(5),
+                              m if rng.random() < 0.85 else rng.randrange(MAXMSG), a if a < 5 else 2)
+                else:
+                    sig = ["junk", rng.randrange(1000)]
+                ops.append(V(m, a, sig, vk))
+        via = "pack" if ents[e][0] == "raw" or rng.random() < 0.3 else "entity"
+        jobs.append(T(e, ops, via))
+    return jobs
+
+
+def assign_jobs(rng, n_jobs, n_workers, p_main):
+    """jobs -> OS threads; a job goes to the main thread with probability p_main; order within a thread shuffled"""
+    workers = [[] for _ in range(n_workers + 1)]
+    order = list(range(n_jobs))
+    rng.shuffle(order)
+    for j in order:
+        w = 0 if rng.random() < p_main else 1 + rng.randrange(n_workers)
+        workers[w].append(j)
+    return workers
+
+
+def random_pool_case(rng):
+    n_ent = rng.randint(2, 3)
+    keys = rng.sample(range(5), n_ent)
+    if rng.random() < 0.1:
+        keys[-1] = keys[0]
+    ents = [[rng.choice(["sp", "idp", "raw"]), k] for k in keys]
+    algs = [rng.choice([0, 1, 2, 3, 4])] * 3 + [rng.choice([0, 1, 2, 3, 4])]
+    jobs = random_jobs(rng, n_ent, ents, rng.randint(2, 6), algs)
+    workers = assign_jobs(rng, len(jobs), rng.randint(1, 3), 0.15)
+    gates = [g for g in GATES if rng.random() < 0.6] or ["gx"]
+    c = pool_case("pool-random", fixture_deploy(ents, workers[0]), gates, jobs, workers, [], True)
+    c["sched"] = pool_sched(rng, c)
+    return c
+
+
+def rollover_case(rng, tag, deploy, n_ent_jobs=1, share=None):
+    """jobs: every entity signs (same algorithm); OS threads: one per entity, or `share` = entities served by one thread"""
+    ents = deploy_ents(deploy)
+    a = rng.choice([0, 2, 2, 4])
+    jobs = []
+    for e in range(len(ents)):
+        for _ in range(n_ent_jobs):
+            jobs.append(T(e, [S(a, rng.randrange(MAXMSG))], "pack" if ents[e][0] == "raw" or rng.random() < 0.3 else "entity"))
+    called = [st[1] for st in deploy if st[0] == "call"]
+    rest = [j for j in range(len(jobs)) if j not in called]
+    if share:
+        workers = [called, [j for j in rest if jobs[j]["ent"] in share], [j for j in rest if jobs[j]["ent"] not in share]]
+        workers = [w for i, w in enumerate(workers) if i == 0 or w]
+    else:
+        workers = [called] + [[j] for j in rest]
+    gates = rng.choice([ENTRY, ALL, ["gx", "se"]])
+    c = pool_case(tag, deploy, gates, jobs, workers, [], False)
+    c["sched"] = pool_sched(rng, c)
+    return c
+
+
+def deployment_cases(ctx):
+    """entity life cycle: key pairs are replaced at a path the configuration keeps naming (roll-over, roll-back, swap),
+    with equal / later / earlier mtime, in place / by rename / by symlink switch; entities are built before and after and
+    then sign concurrently.  Complete over {mtime relation} x {how} x {kind of entity} x {old entity has signed before
+    the roll-over or not}; seeded random scripts in addition."""
+    rng = ctx.rng
+    out = []
+    P, Q = 0, 1
+    for dstamp in (0, 3600, -3600):
+        for how in (0, 1, 2):
+            for kind in ("sp", "idp", "raw"):
+                for precall in ((False, True) if ctx.thorough else (rng.random() < 0.5,)):
+                    k_old, k_new, k_oth = rng.sample(range(5), 3)
+                    eid = rng.randrange(2)
+                    d = [["install", Q, k_oth, 5000, 0], ["install", P, k_old, 5000, how], ["create", Q, "raw", 1],
+                         ["create", P, kind, eid]]
+                    if precall:
+                        d.append(["call", 1])                 # job 1 = the old entity's job
+                    d += [["install", P, k_new, 5000 + dstamp, how], ["create", P, kind, eid]]
+                    share = [1, 2] if rng.random() < 0.3 else None
+                    out.append(rollover_case(rng, "deploy-rollover", d, share=share))
+    for how in (0, 1, 2):
+        for kind in ("raw", "sp"):
+            k0, k1 = rng.sample(range(5), 2)
+            # roll-back: P holds k0, k1, k0 again - all with one time stamp; an entity is built after each
+            d = [["install", P, k0, 5000, how], ["create", P, kind, 0], ["install", P, k1, 5000, how], ["create", P, kind, 0],
+                 ["install", P, k0, 5000, how], ["create", P, kind, 0]]
+            out.append(rollover_case(rng, "deploy-rollback", d))
+        # two paths exchange their key pairs
+        k0, k1 = rng.sample(range(5), 2)
+        d = [["install", P, k0, 5000, how], ["install", Q, k1, 5000, how], ["create", P, "raw", 1], ["create", Q, "raw", 1],
+             ["install", P, k1, 5000, how], ["install", Q, k0, 5000, how], ["create", P, "raw", 1], ["create", Q, "raw", 1]]
+        out.append(rollover_case(rng, "deploy-swap", d, share=[0, 2]))
+    for _ in range(600 if ctx.thorough else 24):
+        out.append(random_deployment_case(rng))
+    return out
+
+
+def random_deployment_case(rng):
+    n_create = rng.randint(2, 4)
+    paths = [0, 1] if rng.random() < 0.5 else [0]
+    deploy, fs, n_ent = [], {}, 0
+    jobs_of_ent = []
+    while n_ent < n_create:
+        r = rng.random()
+        p = rng.choice(paths)
+        if p not in fs or r < 0.35:
+            k = rng.randrange(5)
+            deploy.append(["install", p, k, 5000 + rng.choice([0, 0, 0, 1, 3600, -3600]), rng.randrange(3)])
+            fs[p] = k
+        elif r < 0.85:
+            kind = rng.choice(["raw", "raw", "raw", "raw", "sp", "idp"])
+            deploy.append(["create", p, kind, rng.randrange(2)])
+            n_ent += 1
+        elif n_ent:
+            deploy.append(["call-ent", rng.randrange(n_ent)])
+    ents = deploy_ents([st for st in deploy if st[0] != "call-ent"])
+    a = rng.choice([0, 2, 4])
+    jobs = [T(e, [S(a, rng.randrange(MAXMSG))], "pack" if ents[e][0] == "raw" or rng.random() < 0.3 else "entity")
+            for e in range(n_ent)]
+    # calls of the main thread in the middle of the script: extra jobs of entities that exist at that point
+    main_jobs = []
+    for st in deploy:
+        if st[0] == "call-ent":
+            e = st[1]
+            jobs.append(T(e, [S(a, rng.randrange(MAXMSG))], "pack" if ents[e][0] == "raw" else "entity"))
+            st[0], st[1] = "call", len(jobs) - 1
+            main_jobs.append(len(jobs) - 1)
+    n_w = rng.randint(1, 3)
+    workers = [main_jobs] + [[] for _ in range(n_w)]
+    order = list(range(n_ent))
+    rng.shuffle(order)
+    for j in order:
+        workers[1 + rng.randrange(n_w)].append(j)
+    gates = rng.choice([ENTRY, ALL, ["gx", "se"], ["ge"]])
+    c = pool_case("deploy-random", deploy, gates, jobs, workers, [], False)
+    c["sched"] = pool_sched(rng, c)
+    return c
+
+
 def generate(ctx):
     rng = ctx.rng
     install_gates()
@@ -648,14 +1144,24 @@ def generate(ctx):
     # --- random programs
     for _ in range(6000 if ctx.thorough else 400):
         out.append(random_case(rng))
+    # --- OS threads that serve several entities; the main thread; entities built from replaced key files
+    out += pool_fixture_cases(ctx)
     # --- line / bytecode granularity (results only)
     out += fine_cases(ctx)
+    # building entities costs 40-100 ms each (RSA key parsing): the deployment cases are spread evenly over the list so
+    # that the chunks of the fork pool stay balanced (the order of the cases means nothing)
+    dep = deployment_cases(ctx)
+    step = max(1, len(out) // (len(dep) + 1))
+    for i, c in enumerate(dep):
+        out.insert(min(len(out), (i + 1) * step + i), c)
     return out
 
 
 # ------------------------------------------------------------------------------------ observe
 def observe(case):
     global _CUR
+    if case.get("pool"):
+        return observe_pool(case)
     install_gates()
     ents_spec = [tuple(e) for e in case["ents"]]
     ents = [entity(i, kind, k) for i, (kind, k) in enumerate(ents_spec)]
@@ -773,6 +1279,21 @@ def coq_case(case, obs):
     outs = "[%s]" % "; ".join("[%s]" % "; ".join(cq_res(r) for r in row) for row in obs["outs"])
     if case.get("mode") in ("line", "opcode"):
         return "C20.Corr.mk_fine %s %s %s %s" % (keys, progs, outs, "true" if obs["complete"] else "false")
+    if case.get("pool"):
+        steps = []
+        for st in case["deploy"]:
+            if st[0] == "install":
+                steps.append("DInstall %d %d %d %d" % (st[1], KID0 + st[2], st[3], st[4]))
+            elif st[0] == "create":
+                steps.append("DCreate %d" % st[1])
+            else:
+                steps.append("DCall %d" % st[1])
+        trace = "[%s]" % "; ".join("(%d, %s)" % (t, GATE_COQ[g]) for t, g in obs["trace"])
+        workers = "[%s]" % "; ".join("[%s]" % "; ".join(str(j) for j in w) for w in case["workers"])
+        wsched = "[%s]" % "; ".join(str(t) for t in main_prefix(case) + case["sched"])
+        return "C20.Corr.mk_pool [%s] %s %s %s %s %s %s %s [%s]" % (
+            "; ".join(steps), gates, progs, workers, wsched, outs, trace,
+            "true" if obs["complete"] and not obs["drained"] else "false", "; ".join(str(c) for c in obs["certs"]))
     trace = "[%s]" % "; ".join("(%d, %s)" % (t, GATE_COQ[g]) for t, g in obs["trace"])
     return "C20.Corr.mk %s %s %s %s %s %s %s" % (keys, gates, progs, sched, outs, trace,
                                                   "true" if obs["complete"] and not obs["drained"] else "false")
@@ -789,6 +1310,19 @@ def nontrivial(case, obs):
             return None
         cfg = hashlib.sha1(repr((case["ents"], case["threads"])).encode()).hexdigest()[:10]
         return [cfg, case["mode"], hashlib.sha1(repr(runs).encode()).hexdigest()[:16]]
+    if case.get("pool"):
+        # an OS thread (main thread included) that serves two entities one after the other, or a path whose key
+        # pair is replaced before an entity is built from it
+        shared = any(len({case["threads"][j]["ent"] for j in w}) > 1 for w in case["workers"])
+        seen, rolled = set(), False
+        for st in case["deploy"]:
+            if st[0] == "install":
+                rolled = rolled or st[1] in seen
+                seen.add(st[1])
+        if not (shared or rolled):
+            return None
+        cfg = hashlib.sha1(repr((case["deploy"], case["gates"], case["threads"], case["workers"])).encode()).hexdigest()[:10]
+        return [cfg, case["sched"]]
     if not v0_sensitive(case):
         return None
     cfg = hashlib.sha1(repr((case["ents"], case["gates"], case["threads"])).encode()).hexdigest()[:10]
@@ -798,7 +1332,7 @@ def nontrivial(case, obs):
 def histogram(cases, observed):
     h = {"by_tag": {}, "threads": {}, "results": {}, "schedule_len": {}, "switches": {},
          "window_interleaved(v0_sensitive)": 0, "gate_events": 0, "sig_alg": {}, "via": {},
-         "fine_mode_cases": {}, "fine_mode_scheduling_points": 0}
+         "fine_mode_cases": {}, "fine_mode_scheduling_points": 0, "pool_cases": {}, "deploy": {}}
     for c, o in zip(cases, observed):
         if c.get("mode") in ("line", "opcode"):
             h["fine_mode_cases"][c["mode"]] = h["fine_mode_cases"].get(c["mode"], 0) + 1
@@ -810,7 +1344,24 @@ def histogram(cases, observed):
         h["schedule_len"][b] = h["schedule_len"].get(b, 0) + 1
         sw = str(5 * (switches(c["sched"]) // 5))
         h["switches"][sw] = h["switches"].get(sw, 0) + 1
-        if c.get("mode") not in ("line", "opcode") and v0_sensitive(c):
+        if c.get("pool"):
+            h["pool_cases"]["os_threads=%d" % (len(c["workers"]) - 1 + (1 if c["workers"][0] else 0))] = \
+                h["pool_cases"].get("os_threads=%d" % (len(c["workers"]) - 1 + (1 if c["workers"][0] else 0)), 0) + 1
+            if any(len({c["threads"][j]["ent"] for j in w}) > 1 for w in c["workers"]):
+                h["pool_cases"]["an_os_thread_serves_two_entities"] = h["pool_cases"].get("an_os_thread_serves_two_entities", 0) + 1
+            if c["workers"][0]:
+                h["pool_cases"]["main_thread_calls"] = h["pool_cases"].get("main_thread_calls", 0) + 1
+            if not c["fixture"]:
+                inst = [st for st in c["deploy"] if st[0] == "install"]
+                for st in inst:
+                    h["deploy"]["how:" + HOWS[st[4]]] = h["deploy"].get("how:" + HOWS[st[4]], 0) + 1
+                for p in {st[1] for st in inst}:
+                    stamps = [st[3] for st in inst if st[1] == p]
+                    for x, y in zip(stamps, stamps[1:]):
+                        rel = "same-mtime" if x == y else ("later" if y > x else "earlier")
+                        h["deploy"]["replace:" + rel] = h["deploy"].get("replace:" + rel, 0) + 1
+                h["deploy"]["entities_built"] = h["deploy"].get("entities_built", 0) + len(c["ents"])
+        elif c.get("mode") not in ("line", "opcode") and v0_sensitive(c):
             h["window_interleaved(v0_sensitive)"] += 1
         h["gate_events"] += len(o["trace"])
         for th in c["threads"]:
